@@ -236,7 +236,7 @@ def shard_main(a):
                 state = {"target": None, "last": None}
                 n = n_examples if rnd == 0 else max(20, n_examples // 3)
 
-                @hypothesis.seed(a["seed"] * 100003 + a["shard"] * 101 + rnd * 7)
+                @hypothesis.seed(a["seed"] * 100003 + a.get("seed_group", a["shard"]) * 101 + rnd * 7)
                 @settings(
                     max_examples=n,
                     database=None,
@@ -328,8 +328,10 @@ def run_property(prop, tier="quick", seed=1, shards=None, examples=None, replay=
         env = {}
         if hasattr(mod, "shard_env"):
             env = dict(mod.shard_env(tier, k, nshards) or {})
+        seed_group = mod.shard_seed_group(tier, k, nshards) if hasattr(mod, "shard_seed_group") else k
         jobs.append(
             dict(
+                seed_group=seed_group,
                 prop=prop,
                 tier=tier,
                 seed=seed,
@@ -384,6 +386,14 @@ def run_property(prop, tier="quick", seed=1, shards=None, examples=None, replay=
     for e in known:
         if e["id"] in active_ids:
             print(f"KNOWN-FINDING: property={prop} {e['id']}: {e['what']}")
+
+    # ---- cross-shard comparison (e.g. JIT on vs off on identical cases)
+    if hasattr(mod, "cross_shard_check"):
+        xs, compared = mod.cross_shard_check(results)
+        extra["cross_shard_cases_compared"] = compared
+        for x in xs:
+            results[0]["violations"].append({"case": {"cross_shard_case_hash": x["case_hash"], "shards": [x["shard"], x["shard"] + 1]}, "failure": x["failure"], "phase": "cross-shard"})
+        extra.pop("paired_records", None)
 
     # ---- violations: one per distinct signature
     seen, viol = set(), []
